@@ -87,6 +87,9 @@ def to_coq(e, names=None):
         asr = "; ".join(f"({r(c)}, {'None' if m is None else '(Some ' + r(m) + ')'})" for c, m in e[2])
         fs = "; ".join(f"Field {r(n)} {VIS[v]} {'true' if p else 'false'} {r(b)}" for n, v, p, b in e[3])
         return f"(EObj [{ls}] [{asr}] [{fs}])"
+    if t == "objcomp":
+        sp = "; ".join(f"CFor {names.id(x[1])}%N {r(x[2])}" if x[0] == "for" else f"CIf {r(x[1])}" for x in e[3])
+        return f"(EObjComp {r(e[1])} {r(e[2])} [{sp}])"
     if t == "error":
         return f"(EError {r(e[1])})"
     if t == "assert":
@@ -100,7 +103,7 @@ def to_coq(e, names=None):
     raise ValueError(t)
 
 
-ATOMS = {"null", "bool", "num", "str", "var", "self", "dollar", "arr", "obj", "comp"}
+ATOMS = {"null", "bool", "num", "str", "var", "self", "dollar", "arr", "obj", "comp", "objcomp"}
 
 
 def to_js(e, named_calls=False):
@@ -169,6 +172,9 @@ def to_js(e, named_calls=False):
             key = f"[{r(n)}]"
             parts.append(f"{key}{'+' if pl else ''}{v} {r(b)}")
         return "{" + ", ".join(parts) + "}"
+    if t == "objcomp":
+        sp = " ".join(f"for {x[1]} in {p(x[2])}" if x[0] == "for" else f"if {p(x[1])}" for x in e[3])
+        return f"{{[{r(e[1])}]: {r(e[2])} {sp}}}"
     if t == "error":
         return f"error {p(e[1])}"
     if t == "assert":
@@ -470,6 +476,8 @@ class ProgGen:
                 return ("len", self.gen_obj(env, d - 1))
             if k < 86:
                 return self.gen_objread(NUM, env, d)
+            if k < 94:
+                return self.gen_hof(env, d)
             return self.lit(NUM)
         if ty == BOOL:
             if k < 25:
@@ -649,9 +657,85 @@ class ProgGen:
         read = ("index", chain, ("str", r.choice(["a", "a", "b"])))
         return ("local", [(m, mixin)], read)
 
+    def gen_hof(self, env, d):
+        """functions as values: currying, functions passed as arguments and returned, closures that
+        capture locals, comprehension variables and parameters, bounded recursion"""
+        r = self.rng
+        k = r.below(5)
+        sub = lambda: self.gen(NUM, env, max(d - 2, 0))  # noqa
+        a, b, f, g = self.fresh("a"), self.fresh("b"), self.fresh("f"), self.fresh("g")
+        op = r.choice(["+", "-", "*"])
+        if k == 0:      # currying; the inner closure captures the outer parameter
+            mk = ("fun", [(a, None)], ("fun", [(b, ("num", 2))], ("bin", op, ("var", a), ("var", b))))
+            call = ("app", ("app", ("var", f), [sub()], [], False), [sub()] if r.chance(0.7) else [], [], False)
+            return ("local", [(f, mk)], call)
+        if k == 1:      # a function passed as an argument, applied twice
+            ap = ("fun", [(g, None), (a, None)], ("app", ("var", g), [("app", ("var", g), [("var", a)], [], False)], [], False))
+            inc = ("fun", [(b, None)], ("bin", op, ("var", b), sub()))
+            return ("local", [(f, ap)], ("app", ("var", f), [inc, sub()], [], r.chance(0.2)))
+        if k == 2:      # closures created in a comprehension, each capturing its own loop variable
+            x = self.fresh("x")
+            fs = ("comp", ("fun", [(b, None)], ("bin", op, ("var", x), ("var", b))),
+                  [("for", x, ("arr", [("num", 1), ("num", 2), ("num", 3)]))])
+            i = r.below(3)
+            return ("local", [(f, fs)], ("app", ("index", ("var", f), ("num", i)), [sub()], [], False))
+        if k == 3:      # bounded recursion with an accumulator, mutual recursion in one local
+            ev = ("fun", [(a, None)], ("if", ("bin", "<=", ("var", a), ("num", 0)), ("num", 1),
+                                       ("app", ("var", g), [("bin", "-", ("var", a), ("num", 1))], [], False)))
+            od = ("fun", [(a, None)], ("if", ("bin", "<=", ("var", a), ("num", 0)), ("num", 0),
+                                       ("app", ("var", f), [("bin", "-", ("var", a), ("num", 1))], [], False)))
+            return ("local", [(f, ev), (g, od)], ("app", ("var", f), [("num", r.below(7))], [], r.chance(0.3)))
+        # a function stored in an object field / method using self
+        o = self.fresh("o")
+        obj = ("obj", [], [], [(("str", "k"), ":", False, sub()),
+                               (("str", "m"), "::", False, ("fun", [(a, None)], ("bin", op, ("var", a), ("index", ("self",), ("str", "k")))))])
+        ext = ("bin", "+", ("var", o), ("obj", [], [], [(("str", "k"), ":", False, ("num", 100))])) if r.chance(0.5) else ("var", o)
+        self.note("hof")
+        return ("local", [(o, obj)], ("app", ("index", ext, ("str", "m")), [sub()], [], False))
+
+    def gen_objcomp(self, env, d):
+        """{[k]: body for k in [...] if ..}: field names from the loop variable, bodies that see the loop
+        variables, the enclosing scope and (late-bound) self"""
+        r = self.rng
+        k = self.fresh("k")
+        keys = ["a", "b", "c", "zz"]
+        r.shuffle(keys)
+        src = ("arr", [("str", x) for x in keys[:1 + r.below(4)]])
+        if r.chance(0.15):
+            src = ("arr", src[1] + [src[1][0]])          # duplicate field name: an error
+        specs = [("for", k, src)]
+        inner = [(k, STR)] + env
+        if r.chance(0.4):
+            specs.append(("if", ("bin", "!=", ("var", k), ("str", r.choice(keys)))))
+        if r.chance(0.3):
+            j = self.fresh("j")
+            specs.append(("for", j, ("arr", [("num", 1)] if r.chance(0.7) else [("num", 1), ("num", 2)])))
+            inner = [(j, NUM)] + inner
+        how = r.below(4)
+        if how == 0:
+            body = ("len", ("var", k))
+        elif how == 1:
+            body = ("bin", "+", ("len", ("var", k)), self.gen(NUM, inner, max(d - 1, 0)))
+        elif how == 2:
+            body = ("if", ("bin", "==", ("var", k), ("str", "a")), ("num", 1),
+                    ("bin", "+", ("index", ("self",), ("str", "a")), ("len", ("var", k))))
+        else:
+            body = self.gen(NUM, inner, max(d - 1, 0))
+        name = ("var", k) if r.chance(0.85) else ("if", ("bin", "==", ("var", k), ("str", "zz")), ("null",), ("var", k))
+        self.note("objcomp")
+        return ("objcomp", name, body, specs)
+
     def gen_objread(self, ty, env, d):
         if ty == NUM and self.rng.chance(0.25):
             return self.gen_mixin_reuse(env, d)
+        if ty == NUM and self.rng.chance(0.2):
+            oc = self.gen_objcomp(env, d)
+            k = self.rng.below(3)
+            if k == 0:
+                return ("len", oc)
+            if k == 1:
+                return ("index", oc, ("str", self.rng.choice(["a", "b"])))
+            return ("index", ("bin", "+", ("obj", [], [], [(("str", "a"), ":", False, ("num", 50))]), oc), ("str", "a"))
         nm = self.rng.choice(["a", "b"]) if ty == NUM else "c"
         o = self.gen_obj(env, d - 1, want=(nm, ty))
         if self.rng.chance(0.3):
@@ -673,8 +757,10 @@ class ProgGen:
             return self.gen(STR, [], d)
         if k < 70:
             return self.gen(T_arr(r.choice([NUM, STR, BOOL])), [], d)
-        if k < 90:
+        if k < 84:
             return self.gen_obj([], d)
+        if k < 90:
+            return self.gen_objcomp([], d)
         return ("arr", [self.gen(NUM, [], d - 1), self.gen_obj([], d - 1), self.gen(STR, [], d - 1)])
 
 
@@ -728,6 +814,9 @@ def instrument(e, counter=None):
             return ("obj", [(n, w(b)) for n, b in x[1]],
                     [(w(c), None if m is None else w(m)) for c, m in x[2]],
                     [(n, v, p, w(b)) for n, v, p, b in x[3]])
+        if t == "objcomp":
+            return ("objcomp", w(x[1]), w(x[2]),
+                    [("for", y[1], w(y[2])) if y[0] == "for" else ("if", w(y[1])) for y in x[3]])
         if t == "assert":
             return ("assert", w(x[1]), None if x[2] is None else w(x[2]), w(x[3]))
         if t == "trace":
